@@ -460,7 +460,13 @@ func genRelay(g *genCtx, r *rand.Rand, emit func(Case)) {
 	// images followed by octets that are not part of them (the next frame's beginning, padding): a decoder that takes such
 	// input has taken a PDU it can encode again
 	for _, tn := range typeNames {
-		img, err := build(tn, defaultAssign(r, tn, true)).IEncode()
+		fa := defaultAssign(r, tn, true)
+		for _, f := range layouts[tn].Fields {
+			if f.K == "F" { // every fixed-width text at its full width: what follows the image follows a field without padding
+				fa[f.N] = fval{b: nulFree(r, f.W)}
+			}
+		}
+		img, err := build(tn, fa).IEncode()
 		if err != nil {
 			continue
 		}
